@@ -270,3 +270,20 @@ def pressure_resultant(vk, cfg):
     vk.ensures_eq("pressure-keyword-is-stored/resultant", resultant(item), -p2 * area)
     if vk.sym:
         vk.canary("resultant==+p*area", resultant(item), p2 * area + 1)
+    # evaluated for ANOTHER state handed over as `field=` (a container of its own with other values): the resultant is
+    # -p times the current area vector of THAT state, and the state handed over is only read
+    vk.real(fem.SolidBodyPressure._update)
+    u2 = vk.reals("u2", (rg.mesh.npoints, dim), near=0.0, spread=0.05)
+    f2 = cls(rg, dim=dim, values=u2)
+    fc2 = fem.FieldContainer([f2])
+    F2 = f2.extract()
+    if vk.sym:
+        for x in np.asarray(det_ref(F2), dtype=object).ravel():
+            oracle.assume(co(x), ">")
+    elif np.any(np.asarray(det_ref(F2)) <= 0.2):
+        raise Skip("det F2")
+    w2 = w if kind != "axisymmetric" else 2 * (ring.PI() if vk.sym else np.pi) * f2.radius * rg.dV
+    area2 = ref_einsum("iJqc,Jqc,qc,qc->i", np.swapaxes(symnp.adj_ref(F2), 0, 1), rg.normals, w2, np.sum(rg.h, axis=0))[:dim]
+    snap2 = vk.snapshot(f2.values)
+    vk.ensures_eq("field=other-state/resultant==-p*area-vector(other state)", resultant(item, field=fc2), -p2 * area2)
+    vk.frame_unchanged("field=other-state/values of the state handed over", f2.values, snap2)
